@@ -27,6 +27,12 @@ claims={
         "A nil-error return of ParseCcelWithTdQuote implies both gates on the same quote and returns ReplayAndExtract's result for a bank holding every RTMR of the quote at its own index; error returns carry no state; default options bind REPORT_DATA to the nonce."),
  "C20":("CFG/dominance structure of the retry loop + min-shape and loop-carried-value rules on SSA",
         "First success returned intact from the single attempt site that dominates every return; every retry passes a blocking select with a capped, loop-carried timer and a once-created deadline context whose case returns an error; default configuration. Elapsed-time bounds are not decided."),
+ "C08":("layered contracts: per-helper success-path gates + exhaustive pairing table over the option structs + operands of the returned multierr.Combine",
+        "Leaf contracts (exact match / skip when empty / size, RTMR index pairing, any-of membership, component-wise minimum, fixed-0/fixed-1 masks), exhaustive wiring of every option field to the same-named quote field and abi size, the structural pre-check first, and all results combined into the returned error."),
+ "C13":("OID table + single-store/guard rules on the selection loops + range gates + structure gates + per-call-site Unmarshal discipline + assertion dominance",
+        "OID values, one OID-guarded store per result field from the same element with its own size, index-consistent component loop over all 16 indices for every element (order independence), range gates before narrowing, sequence sizes, error and leftover checks on all asn1.Unmarshal sites, comma-ok assertions."),
+ "C14":("type-driven bijection between policy message fields and option fields + range gates + exhaustive length-check table with same-named abi constants",
+        "Every option field equals the same-named policy field, every policy field is consumed, 16-bit minimums are range-gated, and every byte-string option (including the minimum TEE TCB SVN) is length-checked with the abi constant of the same name before conversion succeeds."),
 }
 na={"C11":"acceptance of every honest quote is an existential, value-dependent completeness property; no structural necessary condition of it is both statically checkable and sensitive to realistic over-strict changes (DESIGN.md section 4/C11)"}
 setup="cd /verif/checker && GOFLAGS=-mod=mod GOPROXY=off GOSUMDB=off GOTOOLCHAIN=local GOWORK=off go build -o /verif/bin/tdxlint ./cmd/tdxlint"
